@@ -780,6 +780,16 @@ Theorem C02_reach_partial2_in_statement : forall dbg hp hpo hd, HostOK2 hp hpo h
 Proof. exact ReachC2_Reachable3. Qed.
 Print Assumptions C02_reach_partial2_in_statement.
 
+(* ... and the serialization of every such record resolves to the record itself against EVERY base record b (C08's
+   absolute law, so far proved for no-base parse results only - Properties/C08.v C08_absolute_nonfile2 - here for
+   records produced by joins, setters and query_pairs_mut sessions as well) *)
+Theorem C02_reach_partial2_absolute : forall dbg hp hpo hd, HostOK2 hp hpo hd -> forall u b, ReachC2 dbg hp hpo hd u ->
+  parse_url dbg hp hpo hd None (Some b) (utf8_lossy (ser u)) = POk u.
+Proof. exact reach_absolute. Qed.
+Check C02_reach_partial2_absolute : forall dbg hp hpo hd, HostOK2 hp hpo hd -> forall u b, ReachC2 dbg hp hpo hd u ->
+  parse_url dbg hp hpo hd None (Some b) (utf8_lossy (ser u)) = POk u.
+Print Assumptions C02_reach_partial2_absolute.
+
 Theorem C02_reach_partial2_extends : forall dbg hp hpo hd u, ReachC dbg hp hpo hd u -> ReachC2 dbg hp hpo hd u.
 Proof. exact ReachC_C2. Qed.
 Print Assumptions C02_reach_partial2_extends.
